@@ -451,6 +451,19 @@ def verify_contract(con, contracts, tier="quick", externals=None):
         res.error, res.error_kind = str(e), "subset"
         res.seconds = time.time() - t0
         return res
+    except (AttributeError, TypeError, KeyError, IndexError, NotImplementedError, ValueError, z3.Z3Exception) as e:
+        # the symbolic executor tripped over a value it does not model while running the code under contract (e.g. a slice of a
+        # function object in changed code): that code is outside the verified subset - the bounded layer decides -, not a
+        # verdict and not a reason to stop the whole check.  (On the unchanged tree such a demotion shows as obligations of the
+        # lock file that are no longer generated.)
+        tb = traceback.extract_tb(e.__traceback__)
+        if tb and "/pyvc/" in (tb[-1].filename or ""):
+            res.error, res.error_kind = "engine cannot model this code (internal %s: %s at %s:%d)" % (
+                type(e).__name__, str(e)[:120], os.path.basename(tb[-1].filename), tb[-1].lineno), "subset"
+        else:
+            res.error, res.error_kind = traceback.format_exc(), "crash"
+        res.seconds = time.time() - t0
+        return res
     except Exception:
         res.error, res.error_kind = traceback.format_exc(), "crash"
         res.seconds = time.time() - t0
